@@ -169,6 +169,13 @@ class GroupWorld(object):
                 self.ex.pc.append(z3.Implies(REP(x, y, z, a, b), REP(x, T(Y), z, -a, -b)))
                 self.reps.append((x, key[1], z, z3.simplify(-a), z3.simplify(-b)))
                 return SInt(z3.simplify(-a)), SInt(z3.simplify(-b))
+        # (x, (-y) mod p, z): the reduced negation
+        if z3.is_app(key[1]) and key[1].decl().name() == "imod" and key[1].arg(1).eq(self.p.t):
+            inner = z3.simplify(-key[1].arg(0))
+            for (x, y, z, a, b) in reversed(self.reps):
+                if key[0].eq(x) and key[2].eq(z) and (inner.eq(y) or z3.simplify(inner - y).eq(z3.IntVal(0))) and z.eq(z3.IntVal(1)):
+                    self.neg_of(SInt(x), SInt(y), SInt(key[1]), SInt(a), SInt(b))
+                    return SInt(z3.simplify(-a)), SInt(z3.simplify(-b))
         raise EngineLimit("triple (%s, %s, %s) has no recorded denotation" % key)
 
     def fresh_triple(self, a, b, hint="r", z_one=False):
@@ -331,9 +338,8 @@ def _g_affine_eq(ex, G, vals, line):
 
 
 def _g_affine_mul(ex, G, vals, line):
-    """legacy Point.__mul__: applied by its ASSUMED contract (k-fold sum; decided only by the bounded stand-in)"""
+    """legacy Point.__mul__ by contract (k-fold sum; verified at the group level: contract LegacyMul below)"""
     o, k = vals["self"], vals["other"]
-    ex.assumptions.add("legacy Point.__mul__ is applied by an assumed contract (bounded stand-in only)")
     if o is infinity(ex):
         return o
     a, b = G.coeff_of(o.fields["_Point__x"], o.fields["_Point__y"], 1)
@@ -362,6 +368,11 @@ def _dispatch(self, ex, vals, line):
         return GROUP_APPLY[name](ex, G, vals, line)
     if G is not None and getattr(ex, "field", None) is None and self.qual.startswith(EC + "Point.") and name in AFFINE_GROUP_APPLY:
         return AFFINE_GROUP_APPLY[name](ex, G, vals, line)
+    if G is not None and getattr(ex, "field", None) is None and self.qual == EC + "CurveFp.contains_point":
+        # a pair with a recorded denotation is a curve point (REP includes the curve equation: C06 contract of contains_point)
+        a, b = G.coeff_of(vals["x"], vals["y"], 1)
+        ex.oblige("%s#call(CurveFp.contains_point)#point-with-known-denotation" % ex.cur_func, SBool(REP(T(vals["x"]), T(vals["y"]), 1, T(a), T(b))), "call-requires", line)
+        return True
     return _prev_dispatch(self, ex, vals, line)
 
 
@@ -486,7 +497,8 @@ class GroupContract(Contract):
         ex.prune = True
         saved_fr, ex.fresh_reset = ex.fresh_reset, True          # the group world is rebuilt inside every path
         had = REGISTRY.get(_LEGACY_MUL.qual)
-        REGISTRY[_LEGACY_MUL.qual] = _LEGACY_MUL
+        if had is None:
+            REGISTRY[_LEGACY_MUL.qual] = _LEGACY_MUL
         try:
             return Contract.verify(self, ex)
         finally:
@@ -888,3 +900,200 @@ def _mul_add_frame(ex, self, other, _f0_self, _f0_other):
 
 
 REGISTRY[PJ + "mul_add"].ensures(_mul_add_frame, "frame-operands-keep-their-value")
+
+
+# ---- legacy affine class: Point.__mul__ (X9.62 D.3.2 signed ladder) at the group level ---------------------------------
+PT = EC + "Point."
+
+
+def affine_obj(ex, G, x, y, order):
+    return SObj(ex.convert(real_ec().Point), {"_Point__curve": G.curve, "_Point__x": x, "_Point__y": y, "_Point__order": order})
+
+
+def affine_product(ex, G, like_order, a, b, hint="aff"):
+    """an affine result denoting a*P + b*Q: the INFINITY singleton or a Point with canonical coordinates"""
+    if ex.branch(SBool(ISO(T(a), T(b)))):
+        G.iso_facts = getattr(G, "iso_facts", []) + [(T(a), T(b))]
+        return infinity(ex)
+    x, y, _ = G.fresh_triple(a, b, hint, z_one=True)
+    return affine_obj(ex, G, x, y, like_order)
+
+
+def affine_coeff(ex, G, o):
+    if o is infinity(ex):
+        return None
+    return G.coeff_of(o.fields["_Point__x"], o.fields["_Point__y"], 1)
+
+
+def _ga_init(ex, G, vals, line):
+    """Point(curve, x, y, order): the constructor's on-curve assertion holds for a triple with a recorded denotation"""
+    o = vals["self"]
+    x, y = vals["x"], vals["y"]
+    if vals["curve"] is not None:
+        a, b = G.coeff_of(x, y, 1)          # raises a tool limit for coordinates of unknown origin
+        ex.oblige("%s#call(Point.__init__)#requires-point-on-curve" % ex.cur_func, SBool(REP(T(x), T(y), 1, T(a), T(b))), "call-requires", line)
+    o.fields.update({"_Point__curve": vals["curve"], "_Point__x": x, "_Point__y": y, "_Point__order": vals.get("order")})
+    return None
+
+
+def _iso_shift(ex, G, pt):
+    """adding an identity does not change what a point denotes: ground instances for the identities met on this path"""
+    x, y = pt.fields["_Point__x"], pt.fields["_Point__y"]
+    a, b = G.coeff_of(x, y, 1)
+    for (c1, d1) in list(getattr(G, "iso_facts", [])):
+        ex.pc.append(z3.Implies(z3.And(REP(T(x), T(y), 1, T(a), T(b)), ISO(c1, d1)), REP(T(x), T(y), 1, T(a) + c1, T(b) + d1)))
+
+
+def _ga_double(ex, G, vals, line):
+    o = vals["self"]
+    if o is infinity(ex):
+        for (c1, d1) in list(getattr(G, "iso_facts", [])):
+            ex.pc.append(z3.Implies(ISO(c1, d1), ISO(2 * c1, 2 * d1)))           # twice the identity is the identity
+            G.iso_facts = G.iso_facts + [(2 * c1, 2 * d1)]
+        return o
+    a, b = affine_coeff(ex, G, o)
+    return affine_product(ex, G, o.fields["_Point__order"], 2 * a, 2 * b, "dbl")
+
+
+def _ga_add(ex, G, vals, line):
+    o, other = vals["self"], vals["other"]
+    if not (is_affine(other)):
+        return NOTIMPL
+    if other is infinity(ex):
+        if o is not infinity(ex):
+            _iso_shift(ex, G, o)
+        return o
+    if o is infinity(ex):
+        _iso_shift(ex, G, other)
+        return other
+    a1, b1 = affine_coeff(ex, G, o)
+    a2, b2 = affine_coeff(ex, G, other)
+    return affine_product(ex, G, o.fields["_Point__order"], a1 + a2, b1 + b2, "sum")
+
+
+def _ga_neg(ex, G, vals, line):
+    o = vals["self"]
+    if o is infinity(ex):
+        return o
+    a, b = affine_coeff(ex, G, o)
+    x = o.fields["_Point__x"]
+    ny = SInt(sym.MOD(sym.canon_mod_arg(-T(o.fields["_Point__y"]), G.p.t), G.p.t)) if isinstance(o.fields["_Point__y"], SInt) else (-o.fields["_Point__y"]) % G.p
+    G.neg_of(x, o.fields["_Point__y"], ny, a, b)
+    return affine_obj(ex, G, x, ny, o.fields["_Point__order"])
+
+
+AFFINE_GROUP_APPLY.update({"__init__": _ga_init, "double": _ga_double, "__add__": _ga_add, "__neg__": _ga_neg})
+
+
+def _neg_of(self, x, y, ny, a, b):
+    """(x, -y mod p, 1) is the reduced negation of (x, y, 1): textbook inverse (ground instance)"""
+    p = self.p.t
+    self.ex.pc.append(z3.Implies(REP(T(x), T(y), 1, T(a), T(b)), z3.And(REP(T(x), T(ny), 1, -T(a), -T(b)), T(ny) >= 0, T(ny) < p)))
+    self.reps.append((z3.simplify(T(x)), z3.simplify(T(ny)), z3.IntVal(1), z3.simplify(-T(a)), z3.simplify(-T(b))))
+
+
+GroupWorld.neg_of = _neg_of
+
+
+def _legacy_cases(c):
+    c.args = {"self": lambda ex, n: None, "other": Int}
+    c.cases = []
+    for (name, has_order) in (("no-order", False), ("order", True)):
+        def mk(ex, n, has_order=has_order):
+            G = ex.group = GroupWorld(ex)
+            order = None
+            if has_order:
+                order = ex.fresh_int("order")
+                ex.pc.append(order.t >= 1)
+            G.order = order
+            x, y, _ = G.fresh_triple(1, 0, "P", z_one=True)
+            ex.pc.append(z3.Not(ISO(1, 0)))
+            # the negation the ladder subtracts: (x, -y mod p)
+            return affine_obj(ex, G, x, y, order)
+        c.cases.append((name, {"self": mk}))
+    c.cases.append(("INFINITY", {"self": lambda ex, n: (setattr(ex, "group", GroupWorld(ex)), infinity(ex))[1]}))
+
+
+class LegacyMul(GroupContract):
+    """outside a group world the legacy multiplication keeps being executed from its source (as before it had a contract)"""
+
+    def apply(self, ex, vals, line):
+        if getattr(ex, "group", None) is not None and getattr(ex, "field", None) is None:
+            return self.group_apply(ex, world(ex), vals, line)
+        from pyvc.interp import FuncRef
+        return ex.inline(FuncRef(self.qual), [vals["self"], vals["other"]], {}, line)
+
+
+def _install_legacy_mul():
+    c = LegacyMul(PT + "__mul__")
+    c.as_method = MethodContract(PT + "__mul__", [], None, None, props=("C07",))
+    _legacy_cases(c)
+    c.theories = set()          # every shift / power-of-two fact the proof needs is instantiated as a ground fact
+
+    # loop 0: leftmost_bit(x) -- result runs through the powers of two up to the first one above x
+    def inv0(ex, x, result, _g):
+        pow2_step(ex, _g, _g - 1)
+        below = pow2(_g - 1) if (isinstance(_g, SInt) or _g >= 1) else 0
+        return And_(_g >= 0, x > 0, eq(result, pow2(_g)), Or_(eq(_g, 0), below <= x))
+    c.loop(0, invariant=[inv0], ghost={"_g": (lambda: 0, lambda _g: _g + 1)},
+           havoc={"result": lambda ex, fr: ex.mk_pow2(fr.locals["_g"])}, decreases=lambda x, result: x + 1 - result)
+
+    # loop 1: the signed ladder over the bits of e3 = 3e and e, from the bit below the top bit of e3 down to bit 1
+    def coef(e3, e, m):
+        return shr_(e3, m + 1) - shr_(e, m + 1)
+
+    def inv1(ex, self, e, e3, i, result, negative_self, _m, part):
+        G = world(ex)
+        pow2_step(ex, _m, _m - 1, _m + 1)
+        for x in (e3, e):
+            # the bits around position _m: x >> _m == 2 * (x >> (_m + 1)) + bit, by the definition of >>
+            ex.pc.append(z3.Implies(T(_m) >= 0, z3.And(T(shr_(x, _m)) == T(x) / sym.POW2(T(_m)), T(shr_(x, _m + 1)) == T(shr_(x, _m)) / 2,
+                                                      T(shr_(x, _m)) >= 0, T(shr_(x, _m + 1)) >= 0)))
+            ex.pc.append(z3.Implies(T(_m) >= 1, z3.And(T(shr_(x, _m - 1)) == T(x) / sym.POW2(T(_m) - 1), T(shr_(x, _m)) == T(shr_(x, _m - 1)) / 2)))
+        c_ = coef(e3, e, _m)
+        if result is infinity(ex):
+            den = SBool(ISO(T(c_), 0))
+        elif is_affine(result):
+            den = And_(SBool(REP(T(result.fields["_Point__x"]), T(result.fields["_Point__y"]), 1, T(c_), 0)), result.fields["_Point__curve"] is G.curve)
+        else:
+            den = False
+        return [And_(_m >= 0, eq(i, pow2(_m)), e >= 1, eq(e3, 3 * e)), den][part]
+
+    def havoc_result(ex, fr):
+        G = world(ex)
+        cc = coef(fr.locals["e3"], fr.locals["e"], fr.locals["_m"])
+        return affine_product(ex, G, fr.locals["self"].fields["_Point__order"], cc, 0, "acc")
+
+    def m_init(i):
+        # i = leftmost_bit(e3) // 2 = pow2(g) // 2 for the g the first loop ended with
+        t = z3.simplify(T(i)) if isinstance(i, SInt) else None
+        sh = 0
+        while t is not None and z3.is_app(t) and t.decl().kind() == z3.Z3_OP_IDIV and z3.is_int_value(t.arg(1)) and t.arg(1).as_long() in (2, 4, 8):
+            sh += {2: 1, 4: 2, 8: 3}[t.arg(1).as_long()]
+            t = t.arg(0)
+        if t is not None and z3.is_app(t) and t.decl().name() == "pow2":
+            return SInt(t.arg(0)) - sh
+        raise EngineLimit("Point.__mul__: i is not a power of two derived from leftmost_bit(e3) any more")
+    c.loop(1, invariant=[lambda ex, self, e, e3, i, result, negative_self, _m: inv1(ex, self, e, e3, i, result, negative_self, _m, 0),
+                         lambda ex, self, e, e3, i, result, negative_self, _m: inv1(ex, self, e, e3, i, result, negative_self, _m, 1)],
+           ghost={"_m": (m_init, lambda _m: _m - 1)},
+           havoc={"i": lambda ex, fr: ex.mk_pow2(fr.locals["_m"]), "result": havoc_result}, decreases=lambda i: i)
+
+    def post(ex, self, other, result):
+        if self is infinity(ex):
+            return result is infinity(ex)
+        return denotes(ex, result, other, 0, self.fields["_Point__order"])
+    c.ensures(post, "k-fold-sum")
+
+    def g_apply(ex, G, vals, line):
+        return _g_affine_mul(ex, G, vals, line)
+    c.group_apply = g_apply
+    REGISTRY[c.qual] = c
+    return c
+
+
+def shr_(x, k):
+    return sym.shr(x, k)
+
+
+_install_legacy_mul()
